@@ -25,7 +25,7 @@ pub const STRS: &[&str] = &["a", "b", "x y", "", "it's", "q\"t", "n\\n"];
 
 impl G {
     fn needs_paren_postfix(&self) -> bool {
-        matches!(self, G::Union(_) | G::Opt(_) | G::Fun(..))
+        matches!(self, G::Union(_) | G::Opt(_) | G::Fun(..)) || matches!(self, G::Int(i) if *i < 0)
     }
 
     /// text with the parentheses a careful author would write
